@@ -38,7 +38,7 @@ func (s *Sim) LivenessSuffix() {
 		n.Disk.Mode = SnapFresh
 		n.Disk.TempUnavailable = false
 		n.Opts.LazySync = false
-		n.SlowAppend, n.SlowApply = false, false
+		n.SlowAppend, n.SlowApply, n.SlowAck = false, false, false
 		if n.Opts.ElectionTick > maxET {
 			maxET = n.Opts.ElectionTick
 		}
